@@ -15,14 +15,16 @@ def x25(bs):
 
 class C07(Prop):
     pid = "C07"
-    lean_targets = ["M17.Props.C07"]
+    lean_targets = ["M17.Props.C07", "M17.Props.C07A"]
     theorems = ["M17.C07.lich_slot_in_range", "M17.C07.viterbi_metric_no_overflow", "M17.C07.callsign_index_le_9",
                 "M17.C07.depuncture_fills_buffer", "M17.C07.framer_index_in_range", "M17.C07.packet_size_le_25",
-                "M17.C07.clock_index_in_range"]
+                "M17.C07.clock_index_in_range", "M17.C07A.repeaters_in_bounds", "M17.C07A.parse_in_bounds"]
     level_text = ("Lean 4 range theorems over the models of C01-C05, C11, C17 (for ALL inputs): the LICH slot written is 0..5 and stays inside "
                   "the 30-byte LSF; Viterbi path metrics stay below 2^31 for trellises up to 244 steps (history size); decode_callsign "
                   "writes at most 9 characters into its 10-byte array; depuncture fills exactly its output buffer; the framer's fill index stays "
-                  "even and below 368 and returns to 0; packet size is clamped to 25; a symbol-timing estimate in [0,10) rounds to an index 0..9. "
+                  "even and below 368 and returns to 0; packet size is clamped to 25; a symbol-timing estimate in [0,10) rounds to an index 0..9; "
+                  "parse_in_bounds: every substr / operator[] / iterator range formed by the model of ax25_frame::parse lies inside the frame, "
+                  "for every frame length and content (model tied to the real class field by field on hostile frames). "
                   "What these theorems cannot exhibit — float-to-int conversions, the Kalman arithmetic, and the application handlers' indexing "
                   "— is checked by running the real receive path (demodulator over the Blaze stand-in + apps/m17-demod.cpp handlers in-process) "
                   "under ASan+UBSan+_GLIBCXX_ASSERTIONS on hostile sample streams, all 368-LLR frames in [-128,127] (shared with C08's garbage "
@@ -89,6 +91,41 @@ class C07(Prop):
             model = ctx.run_model(lines)
             ctx.compare("dec-slot", lines, impl, model, oracle=lambda ln, a: None, sig=lambda ln: "step")
 
+    def ax25_stage(self, ctx, demod):
+        """mobilinkd::ax25_frame (the real class, in-process, under ASan/UBSan/_GLIBCXX_ASSERTIONS) against the Lean model Ax25.parse whose
+        accesses are proved in range (C07A.parse_in_bounds): arbitrary byte strings with lengths around every guard (17, 14+7r+3..+6),
+        address chains of 0..8 repeaters ended / not ended by the extension bit, all four control-field classes"""
+        rng = ctx.rng
+        quick = ctx.tier == "quick"
+        lines = []
+        for n in list(range(0, 40)) + [44, 45, 46, 51, 52, 53, 58, 59, 60, 70, 71, 72, 77, 78, 79, 200, 330]:
+            for ctl in (0x03, 0x00, 0x01, 0x02, 0x13, 0xFF):
+                for chain in (0, 1, 2):
+                    if chain == 0:
+                        f = [rng.randrange(256) for _ in range(n)]
+                    elif chain == 1:   # every address byte even: the repeater chain runs to the end of the frame
+                        f = [rng.randrange(128) * 2 for _ in range(n)]
+                    else:              # r repeaters then control byte
+                        r = rng.randrange(0, 9)
+                        f = [rng.randrange(128) * 2 for _ in range(7 * (2 + r))]
+                        if f:
+                            f[-1] |= 1
+                        f += [ctl] + [rng.randrange(256) for _ in range(rng.randrange(0, 8))]
+                        f = f[:n] if n and rng.random() < 0.3 else f
+                    if f and rng.random() < 0.5:
+                        k = rng.randrange(len(f)); f[k] = rng.choice([64, 65, 0x40 | 0x1E, 32])    # spaces / SSIDs after the shift
+                    lines.append("ax25 " + " ".join(map(str, f)))
+        for _ in range(200 if quick else 5000):
+            n = rng.choice([17, 18, 19, 20, 21, 24, 25, 26, 31, 32, 33, rng.randrange(0, 90)])
+            lines.append("ax25 " + " ".join(str(rng.randrange(256)) for _ in range(n)))
+        out = demodlib.run_resilient(ctx, demod, lines, "ax25")
+        for ln in lines:
+            ctx.count(ln[:200], nontrivial=len(ln.split()) > 17)
+            ctx.stat("op:ax25")
+        if ctx.model_ok:
+            model = ctx.run_model(lines)
+            ctx.compare("ax25", lines, out, model, oracle=lambda ln, a: None, sig=lambda ln: "len%d" % (len(ln.split()) - 1))
+
     @staticmethod
     def hist(lines, ln):
         from lib import deccheck
@@ -102,6 +139,7 @@ class C07(Prop):
         rng = ctx.rng
         quick = ctx.tier == "quick"
         self.lich_slot_stage(ctx)
+        self.ax25_stage(ctx, demod)
         lines = []
         # app handlers with arbitrary content
         for _ in range(300 if quick else 5000):
